@@ -1,3 +1,5 @@
+import Pds.Proofs.KernelTie.Merge
+import Pds.Proofs.KernelTie.CmsOps
 import Pds.Proofs.KernelTie.SizingCms
 import Pds.Proofs.KernelTie.HashIter
 import Pds.Proofs.KernelTie.Real
@@ -27,5 +29,18 @@ theorem cms_with_point_query_properties_real {ε δ : ℝ} (hε : 0 < ε) (hδ :
   rw [cms_with_point_query_properties_eq ε δ real_e, ← h]
   congr 1
   exact transc_real
+
+/-- the histories of C08 are built from `add_n` and `merge`: both as translated are the model's -/
+theorem cms_add_n_translated (s : Cms.St) (cols : List Nat) (n : Nat) :
+    cms_add_n s.w s.cmax s.table.toList n cols =
+      match Cms.addCols s cols n with
+      | none => Flow.panic
+      | some (s', r) => Flow.ret (r, s'.table.toList) := cms_add_n_eq s cols n
+
+theorem cms_merge_translated (s o : Cms.St) :
+    cms_merge s.w s.d s.cmax s.table.toList o.w o.d o.table.toList =
+      match Cms.merge s o with
+      | none => Flow.panic
+      | some s' => Flow.cont s'.table.toList := cms_merge_eq s o
 
 end Pds.Tie.C08
